@@ -159,6 +159,27 @@ func (m *Machine) chooseG(en []*G, cur *G) int {
 		// sequential contracts of functions that use worker goroutines internally
 		return 0
 	}
+	// delay bounding (entry option delay_bound, or set by a harness with verifrt.DelayBound): the default
+	// successor at a blocking point or goroutine exit is the oldest enabled goroutine; at most
+	// `bound` other choices per path, every such deviation is explored
+	if b, ok := m.userData["sched.delaybound"].(int); ok {
+		used, _ := m.userData["sched.delays"].(int)
+		if used >= b {
+			return 0
+		}
+		i := m.Choose(len(en), "sched")
+		if i != 0 {
+			m.userData["sched.delays"] = used + 1
+		}
+		return i
+	}
+	if w := m.Opt.SchedWidth; w > 0 && len(en) > w {
+		// bounded scheduling: only the first w enabled goroutines (creation order) are alternatives
+		if w == 1 {
+			return 0
+		}
+		return m.Choose(w, "sched")
+	}
 	return m.Choose(len(en), "sched")
 }
 
